@@ -38,6 +38,7 @@ P_C03b == [][C03_CleanMeansAllSlicesPresent]_vars
 P_C03x == [][C03_CleanMeansIntact]_vars        \* expected to FAIL on the model (known finding D5)
 P_C14a == [][C14_SuccessIsFixpoint]_vars
 P_C14b == [][C14_FailureKeepsOrRestores]_vars
+P_C14d == [][C14_FailureLosesNoSlice]_vars
 P_C14c == [][C14_VerifyPure]_vars
 P_C16  == [][C16_SurvivorsFound]_vars
 =============================================================================
